@@ -6,6 +6,7 @@ import (
 	"go/token"
 	"go/types"
 	"math"
+	"math/big"
 	"unicode/utf8"
 
 	"golang.org/x/tools/go/ssa"
@@ -230,6 +231,9 @@ func (p *Path) equals(t types.Type, x, y Value) *smt.Term {
 		if x.Sort.K == smt.SFP {
 			return smt.FPEq(x, yt)
 		}
+		if x.Sort.K == smt.SInt || yt.Sort.K == smt.SInt {
+			return smt.Eq(p.toInt(x), p.toInt(yt))
+		}
 		return smt.Eq(x, yt)
 	case Str:
 		return p.strEq(x, y.(Str))
@@ -390,6 +394,12 @@ func (p *Path) binop(op token.Token, xt, yt types.Type, x, y Value) Value {
 		if ki.w != 64 {
 			p.abortf("float32 arithmetic unsupported")
 		}
+		if _, ok := x.(XF); ok || isXF(y) {
+			if op != token.QUO {
+				p.abortf("Int back end: only float division is lowered")
+			}
+			return p.xfDiv(p.toXF(x), p.toXF(y))
+		}
 		a, b := x.(*smt.Term), y.(*smt.Term)
 		switch op {
 		case token.ADD:
@@ -410,6 +420,9 @@ func (p *Path) binop(op token.Token, xt, yt types.Type, x, y Value) Value {
 			return smt.FPLe(b, a)
 		}
 	case ki.isInt:
+		if isIntSort(x) || isIntSort(y) {
+			return p.intBinop(op, ki, x, y)
+		}
 		a, b := x.(*smt.Term), y.(*smt.Term)
 		switch op {
 		case token.SHL, token.SHR:
@@ -676,6 +689,17 @@ func (p *Path) conv(tDst, tSrc types.Type, x Value) Value {
 		t, ok := x.(*smt.Term)
 		if !ok {
 			p.abortf("unsupported conversion %s -> %s (%T)", tSrc, tDst, x)
+		}
+		if t.Sort.K == smt.SInt {
+			switch {
+			case kd.isInt && !kd.signed && !ks.signed && kd.w >= ks.w:
+				return t
+			case kd.isInt && !kd.signed:
+				return smt.IMod(t, pow2(kd.w))
+			case kd.isFloat && kd.w == 64 && !ks.signed:
+				return p.xfFromUint(t)
+			}
+			p.abortf("Int back end: conversion %s -> %s not lowered", tSrc, tDst)
 		}
 		switch {
 		case kd.isInt && ks.isInt:
@@ -1009,4 +1033,22 @@ func hasFP(t *smt.Term) bool {
 		}
 	}
 	return false
+}
+
+func isXF(v Value) bool { _, ok := v.(XF); return ok }
+
+// toXF views a float value as an exact dyadic: XF itself, or a constant
+// double holding an integer.
+func (p *Path) toXF(v Value) XF {
+	switch v := v.(type) {
+	case XF:
+		return v
+	case *smt.Term:
+		if v.Sort.K == smt.SFP && v.IsConst() && v.F == math.Trunc(v.F) && v.F >= 0 && v.F < 1.9e19 {
+			bi, _ := new(big.Float).SetFloat64(v.F).Int(nil)
+			return XF{exact: smt.ConstInt(bi)}
+		}
+	}
+	p.abortf("Int back end: float operand is neither lowered nor an integer constant")
+	return XF{}
 }
